@@ -101,6 +101,11 @@ def factories(sp, rng):
     yield 'proximal_box_constraint/scalar', P.proximal_box_constraint(sp, -0.3, 0.5), False
     yield 'proximal_box_constraint/element-lower', P.proximal_box_constraint(sp, -0.3 * sp.one(), None), False
     yield 'proximal_box_constraint/upper-only', P.proximal_box_constraint(sp, None, 0.4), False
+    if not util.is_pspace(sp) and sp.is_real:
+        # bounds given as plain arrays / nested lists (converted by the factory), mixed with a scalar
+        lo_arr = -0.3 + 0.1 * np.arange(sp.size, dtype=float).reshape(sp.shape) / max(sp.size, 1)
+        yield 'proximal_box_constraint/array-like-bounds', P.proximal_box_constraint(sp, lo_arr, (lo_arr + 0.7).tolist()), False
+        yield 'proximal_box_constraint/array-lower,scalar-upper', P.proximal_box_constraint(sp, lo_arr, 0.6), False
     yield 'proximal_nonnegativity', P.proximal_nonnegativity(sp), False
     yield 'proximal_const_func', P.proximal_const_func(sp), False
     yield 'proximal_huber', P.proximal_huber(sp, 0.3), False
@@ -108,6 +113,8 @@ def factories(sp, rng):
     yield 'proximal_translation(l2)', P.proximal_translation(base, g), False
     yield 'proximal_translation(l1)', P.proximal_translation(P.proximal_l1(sp), g), False
     yield 'proximal_arg_scaling(l2)', P.proximal_arg_scaling(base, 1.7), False
+    yield 'proximal_arg_scaling(l2,scaling=0)', P.proximal_arg_scaling(base, 0), False
+    yield 'proximal_arg_scaling(l1,negative)', P.proximal_arg_scaling(P.proximal_l1(sp), -1.3), False
     yield 'proximal_arg_scaling(l1,element-scaling)', P.proximal_arg_scaling(P.proximal_l1(sp), 0 * g + 1.7), False
     yield 'proximal_quadratic_perturbation(l2)/u', P.proximal_quadratic_perturbation(base, 0.6, g), False
     yield 'proximal_quadratic_perturbation(l2)/no-u', P.proximal_quadratic_perturbation(base, 0.6), False
